@@ -662,6 +662,96 @@ def live_sun(chk, fc):
                'month, day, second) and agrees with the %s to %s' % (refname, tol),
                mismatches=bad, branches=branches)
 
+# ----------------------------------------------------------------------------- round 5: the sun inside the step loop
+def sun_every_step(chk, fc):
+    """C12 quantifies over EVERY time step of the day. The kernel ties evaluate `solarangles` for any second; the live
+    ties so far ran at dtsim >= 90 s and looked only at the calls that were made. Here the REAL float loop of
+    `simulate()` runs with the REAL SolarCalcs (everything after the solar update stubbed: v3_util.sun_driver_run) for
+    sub-minute and off-minute time steps, and the state is read BETWEEN the solar update and the rest of the step: the
+    sun position in use must be that of the step's own instant (computed from the start date and the step count, not
+    from the model's clock), refreshed at every step, and the horizontal irradiance handed to the rural site and the
+    roofs must be direct-normal x cos(zenith of this step) + diffuse."""
+    import simdriver
+    import u3_util as U3
+    import v3_util as V3
+    rng = chk.rng
+    quick = chk.tier == 'quick'
+    work = os.path.join(chk.work(), 'sunloop')
+    os.makedirs(work, exist_ok=True)
+    probe = (6, 15, 36010, 42.37, -71.02, -5.0)
+    c_probe = fc.cosz(*probe)
+    if c_probe is not None and abs(c_probe - ascoded_cosz(*probe)) < 1e-9:
+        ref, tol, refname = ascoded_cosz, 1e-9, 'as-coded transcription'
+    elif c_probe is not None and abs(c_probe - noaa_cosz(*probe)) < 2e-4:
+        ref, tol, refname = noaa_cosz, 2e-4, 'NOAA'
+    else:   # the routine matches neither transcription (a kernel defect the exact tie reports): judge the loop by the routine
+        ref, tol, refname = None, None, 'none'
+    src = U3.load_rows(simdriver.epw_path())
+    files = {}
+
+    def site_path(site):
+        if site not in files:
+            files[site] = U3.site_file(src, site[0], site[1], site[2], os.path.join(work, 'site%d.epw' % len(files)))
+        return files[site]
+    starts = [(6, 21), (12, 21), (3, 20), (9, 30), (1, 1), (7, 4), (2, 28), (12, 31), (4, 30)]
+    if quick:
+        dts = [rng.choice([1, 2, 3])] + rng.sample([4, 5, 6, 8, 9, 10], 2) + rng.sample([12, 15, 16, 18, 20], 2) + \
+            rng.sample([24, 25, 30], 2) + rng.sample(V3.OFFMINUTE, 2) + [rng.choice([60, 120, 300, 600])]
+        plan = [(dt, rng.choice(SITES4), rng.choice(starts), 1, 3000) for dt in dts]
+        plan.append((rng.choice([15, 20, 30, 40]), rng.choice(SITES4), rng.choice([(2, 28), (4, 30), (12, 31)]), 2, None))
+    else:
+        plan = [(dt, rng.choice(SITES4), rng.choice(starts), 1, None) for dt in V3.DIVISORS if dt <= 900]
+        plan += [(dt, rng.choice(SITES4), st, 3, None) for dt in (10, 20, 30, 45) for st in ((2, 27), (12, 30))]
+    bad, nsteps, nsun, nruns, br = 0, 0, 0, 0, {}
+    for (dt, site, (mo, dy), nday, budget) in plan:
+        if (mo, dy) == (12, 31) and nday > 1:
+            mo, dy = 12, 30         # (a window past 31 Dec is refused by the reader: not this property)
+        hdr = tuple(float(x) for x in site)
+        case = {'LOCATION(lat, lon, zone)': list(site), 'rows': 'those of the shipped Singapore file', 'month': mo,
+                'day': dy, 'nday': nday, 'dtsim': dt}
+        try:
+            with core.quiet():
+                m = simdriver.build_model(mo, dy, nday, dt, epw=site_path(site))
+        except Exception as e:  # noqa: BLE001
+            chk.notes.append('sun-loop run %s not built: %s' % (case, str(e)[:80]))
+            continue
+        run = V3.sun_driver_run(m, mo, dy, hdr, lambda a, b, c: fc.zen(a, b, c, *hdr), budget=budget, ref=ref, tol=tol)
+        nruns += 1
+        nsteps += run.steps
+        nsun += run.sunlit
+        k = 'dt<=30' if dt <= 30 else 'off-minute' if dt % 60 else 'whole minutes'
+        br[k] = br.get(k, 0) + 1
+        if run.error:
+            chk.notes.append('sun-loop run %s: %s' % (case, run.error))
+        if (hdr[0], hdr[1], hdr[2]) != (m.RSM.lat, m.RSM.lon, m.RSM.gmt):
+            run.problems.insert(0, ('site of the model is not the LOCATION line', {}, (m.RSM.lat, m.RSM.lon, m.RSM.gmt), hdr))
+        if run.skipped:
+            br['steps without exactly one solar update (information)'] = \
+                br.get('steps without exactly one solar update (information)', 0) + run.skipped
+        for (kind, at, obs, exp) in run.problems[:1]:
+            bad += 1
+            if bad <= 3:
+                chk.violation('impl-violation', 'the sun inside the step loop: ' + kind, case=dict(case, **at),
+                              observed=obs, expected=exp,
+                              how='v3_util.sun_driver_run: real simulate() with the real SolarCalcs, the physics after the '
+                                  'solar update stubbed, state read at rural.SurfFlux (first call after the solar update)')
+    if nruns and not nsun:
+        raise core.Infra('sun-loop: no sunlit step observed')
+    chk.direct('sun-in-use-at-every-step(real loop, dtsim 1..30 s, off-minute and whole-minute steps)', nsteps, nruns,
+               'the REAL float loop of simulate() with the REAL SolarCalcs, physics after the solar update stubbed, observed '
+               'BETWEEN the solar update and the rest of the step; rows of the shipped Singapore file under LOCATION lines '
+               'drawn from 7 sites (both hemispheres, zones -10 .. +10, fractional); starts 6/21, 12/21, 3/20, 9/30, 1/1, '
+               '7/4, 2/28, 12/31, 4/30. Quick: one dtsim of {1, 2, 3}, two of {4..10}, two of {12..20}, two of {24, 25, 30}, '
+               'two off-minute (40, 45, 48, 50, 72, 75, 80, 90, 100, ...), one whole-minute; each observed until 3000 sunlit '
+               'steps have been judged; plus a 2-day window across a month end. Thorough: all divisors of 3600 up to 900 '
+               'for a whole day, 3-day windows across 28 Feb / 31 Dec. Per step: the radiation model.solar worked with = the '
+               'forcing in force; zenith in use bit-identical to the stand-alone routine for '
+               '(header site; TRUE instant = start + it x dt from an independent calendar) and within %s of the %s; '
+               'rural site and roofs receive max(cos(zenith) x direct-normal, 0) + diffuse bit for bit; all-zero when the '
+               'row reports no sun' % (tol, refname), mismatches=bad,
+               branches=dict(br, sunlit_steps=nsun))
+
+
 # ----------------------------------------------------------------------------- round 4: routes, histories, circumstances
 SITES4 = [('52.0', '15.0', '1.0'), ('-35.0', '150.0', '10.0'), ('38.72', '-9.14', '0.0'), ('28.6', '77.2', '5.5'),
           ('47.6', '-52.7', '-3.5'), ('-17.5', '-149.6', '-10.0'), ('64.13', '-21.9', '0.0')]
@@ -1001,6 +1091,7 @@ def run(chk):
     npts, differs, unexplained, first_unexpl = float_measure(chk, fc, sites)
     epw_measure(chk, fc)
     live_sun(chk, fc)
+    sun_every_step(chk, fc)
     routes_and_histories(chk)
 
     if not bad_impl:
